@@ -127,6 +127,12 @@ func closuresByBranch(fn *ssa.Function, predName string) map[bool]*ssa.Function 
 
 func c05() []*Ob {
 	return []*Ob{
+		{Prop: "C05", ID: "C05.9", Engine: "PAIR(accumulators)", Floor: 3,
+			Desc:  "the borders the fraction list is sorted and cut by are true extrema of the fraction's documents: metaDataCollector.MinMID/MaxMID (also after the duplicate filter) and Info.From/To are running minimum and maximum, each of its own (shared rule with C14.8) — a fraction whose To is below its newest document is searched too late in a descending search, and ids are declared final although it still holds newer ones",
+			Check: func(c *Ctx) { runningExtrema(c) }},
+		{Prop: "C05", ID: "C05.8", Engine: "PAIR(comparator)", Floor: 1,
+			Desc:  "documents of one millisecond are ordered the same way inside every fraction as the merge orders them: wherever the active posting lists are ordered, ties on MID are broken by RID in the direction of seq.Less (shared rule with C02.7) — otherwise a limit that cuts through such a group keeps different members in different layouts",
+			Check: shared("C02.7")},
 		{Prop: "C05", ID: "C05.1", Engine: "ORDER+PROV", Floor: 2,
 			Desc: "sort, then chunk: prepareFracs filters by range and sorts by the request order; SearchDocs shifts chunks off exactly that list and shrinks the limit from the merged ids and the remaining fractions",
 			Check: func(c *Ctx) {
